@@ -5,6 +5,7 @@
  * one line per read, so chunking plays no role here (that is C18's business). */
 #include "engine.h"
 #include "models.h"
+#include "invgen.h"
 #include <string.h>
 #include <algorithm>
 
@@ -167,10 +168,103 @@ struct HistEngine : Engine {
 		}
 	}
 
+	/* ---- invocations drawn from the shared grammar (invgen.h) instead of the table ---- */
+	Plan generate_grammar(Rng &r, const Config &cfg)
+	{
+		Plan p;
+		inv::Inv iv = inv::rand_inv(r, nullptr, false, true);
+		p.argv = inv::inv_argv(iv);
+		for (auto &z : iv.zones)
+			embed_zone(p, z);
+		p.par["g"] = "1";
+		p.par["tool"] = iv.tool;
+		p.par["mode"] = std::to_string(iv.mode ? 1 : 0);
+		p.par["nfixed"] = std::to_string(p.argv.size());
+		size_t n;
+		unsigned lk = (unsigned)r.below(100);
+		bool longh = false;
+		if (lk < 72)
+			n = (size_t)r.range(1, 8);
+		else if (lk < 90)
+			n = (size_t)r.range(9, 40);
+		else {
+			longh = true;
+			if (SIM_NL <= 64)
+				n = (size_t)r.range(SIM_NL + 1, 6 * SIM_NL + 8);
+			else
+				n = (size_t)r.range(130, cfg.tier == "thorough" ? 700 : 400);
+		}
+		if (iv.mode == 0 && n > 60)
+			n = 60;
+		std::vector<std::string> pool;
+		size_t npool = longh ? (size_t)r.range(2, 6) : 0;
+		auto one = [&]() {
+			std::string v = inv::inv_value(r, iv);
+			return iv.textlines ? inv::text_around(r, v) : v;
+		};
+		for (size_t i = 0; i < npool; i++)
+			pool.push_back(one());
+		std::vector<std::string> vals;
+		for (size_t i = 0; i < n; i++)
+			vals.push_back(npool ? pool[r.below(npool)] : one());
+		if (iv.mode == 0) {
+			for (auto &v : vals)
+				if (!v.empty() && v[0] != '-')
+					p.argv.push_back(v);
+			if (p.argv.size() == (size_t)p.ipar("nfixed"))
+				p.argv.push_back("2012-03-04");
+		} else {
+			p.has_input = true;
+			for (auto &v : vals)
+				p.input += v + "\n";
+			Op o;
+			o.kind = "rd";
+			o.a = {RD_NL, 0, 0};
+			p.sched.push_back(o);
+		}
+		static const int64_t starts[] = {951782399, 1000000000, 946684799, 1330559999, 2147483647, 86399, 1456790399, 4102444799LL};
+		p.clock.start = starts[r.below(sizeof(starts) / sizeof(*starts))];
+		p.clock.per_read_s = r.chance(1, 3) ? 0 : r.chance(1, 2) ? 86400 : 86400 * 366;
+		/* whatever leaves a field to `now' (bare times, short formats without --base) legitimately reads the
+		 * clock at a moment that differs between the long run and the one-value run: frozen clock */
+		if (!iv.full || iv.kind == inv::K_TIME || iv.has_base) {
+			p.clock.per_read_s = 0;
+			p.par["clockdep"] = "1";
+		}
+		p.clock.step_us = p.par.count("clockdep") ? 0 : r.chance(1, 2) ? 0 : 1;
+		return p;
+	}
+
+	struct RCfg {
+		std::string tool;
+		int mode, vkind;
+		bool status;
+	};
+	static bool resolve_cfg(const Plan &p, RCfg &c)
+	{
+		if (p.par.count("g")) {
+			c.tool = p.par.count("tool") ? p.par.at("tool") : "dconv";
+			c.mode = (int)p.ipar("mode", 0);
+			c.vkind = 0;
+			c.status = true;
+			return true;
+		}
+		size_t ci = (size_t)p.ipar("cfg", 0);
+		if (ci >= sizeof(cfgs) / sizeof(*cfgs))
+			return false;
+		c.tool = cfgs[ci].tool;
+		c.mode = cfgs[ci].mode;
+		c.vkind = cfgs[ci].vkind;
+		c.status = cfgs[ci].status;
+		return true;
+	}
+
 	Plan generate(Rng &r, uint64_t idx, const Config &cfg) override
 	{
 		(void)idx;
 		Plan p;
+		if (cfg.iopt("grammar", 1) && r.chance(1, 2))
+			return generate_grammar(r, cfg);
 		size_t ci = r.below(sizeof(cfgs) / sizeof(*cfgs));
 		const Cfg &c = cfgs[ci];
 		p.par["cfg"] = std::to_string(ci);
@@ -355,20 +449,20 @@ struct HistEngine : Engine {
 	Verdict judge(const Plan &p, Stats &st, bool collect) override
 	{
 		Verdict v;
-		size_t ci = (size_t)p.ipar("cfg", 0);
-		if (ci >= sizeof(cfgs) / sizeof(*cfgs)) {
+		size_t ci = p.par.count("g") ? 1000 : (size_t)p.ipar("cfg", 0);
+		RCfg c;
+		if (!resolve_cfg(p, c)) {
 			v.harness = true;
 			v.ok = false;
 			v.detail = "bad cfg index";
 			return v;
 		}
-		const Cfg &c = cfgs[ci];
 		size_t nfixed = (size_t)p.ipar("nfixed", 1);
 		Limits lim;
 		lim.cpu_s = 4.0;
 		RunResult r = run_plan(p, lim);
 		st.add_probes(r);
-		v.predicate = std::string("tool_") + c.tool + (c.mode ? " stdin" : " args");
+		v.predicate = std::string("tool_") + c.tool + (c.mode ? " stdin" : " args") + (p.par.count("g") ? " grammar" : "");
 		for (auto &a : p.argv)
 			if (a == "--zone" || a == "--from-zone")
 				v.predicate += " zone_option";
@@ -408,6 +502,8 @@ struct HistEngine : Engine {
 			}
 			st.signatures.insert(sig);
 			st.named[std::string("histories_") + c.tool]++;
+			if (p.par.count("g"))
+				st.named["histories_from_grammar"]++;
 			st.named["values"] += singles.size();
 			if (singles.size() > 255)
 				st.named["reach_more_than_255_values"]++;
@@ -483,8 +579,9 @@ struct HistEngine : Engine {
 	std::vector<Plan> candidates(const Plan &p) override
 	{
 		std::vector<Plan> out;
-		size_t ci = (size_t)p.ipar("cfg", 0);
-		const Cfg &c = cfgs[ci < sizeof(cfgs) / sizeof(*cfgs) ? ci : 0];
+		RCfg c;
+		if (!resolve_cfg(p, c))
+			return out;
 		size_t nfixed = (size_t)p.ipar("nfixed", 1);
 		if (c.vkind == 3) {
 			size_t nz = (size_t)p.ipar("nzones", 1);
